@@ -1088,11 +1088,14 @@ fn run_case<D: KvDatabase, F: Fam>(be: Backend, open: &dyn Fn() -> D, case: &Val
         for (i, ev) in events.iter().enumerate() {
             r.event(i + 1, ev);
         }
-        // epilogue: one more close / reopen and a full comparison
-        phase("final close".into());
-        r.close();
-        r.db = Some((r.open)());
-        r.sweep(events.len() + 1, "after final close and reopen", &case["final"]);
+        // epilogue: one more close / reopen and a full comparison (the
+        // first-touch behaviours end with exactly that themselves)
+        if case["ft"].as_bool() != Some(true) {
+            phase("final close".into());
+            r.close();
+            r.db = Some((r.open)());
+            r.sweep(events.len() + 1, "after final close and reopen", &case["final"]);
+        }
         phase("last close".into());
         r.close();
     }));
